@@ -10,7 +10,7 @@ CONFIG = {
     "C05": {
         "quick_n": 40000, "thorough_n": 400000, "thorough_seeds": 4, "search_s": 60,
         "model_fn": "build / lookup / look (DFS over the implicit trie)",
-        "go_entry": "denco.Router.Build + denco.Router.Lookup",
+        "go_entry": "denco.Router.Build + denco.Router.Lookup; denco.Mux.Build + ServeHTTP (stream M)",
         "rule": "pattern tables (1-8 keys quick, 1-40 thorough) over literals {a b ab x - = e-acute a.b c a-b}, ':name', '*wildcard', 'a=:k', mid-segment ':' and '*', shared-prefix siblings, 1 table in 12 with keys Build must reject ('#', NUL, duplicate names); 6 lookups per table: instantiations with values from {1 ab a '' a#b : * # a:b e-acute x.y %2F a=b}, mutated instantiations, the keys themselves, random bytes over {a b / : * # = - NUL}. Keys are passed to Build in the generated (random) order. Non-trivial = Build accepted a table with at least one parameterised key; distinct = distinct input lines.",
         "trusted_base": COMMON_TB + [
             "the BASE/CHECK double array (findBase, XOR indexing, 22-bit limits) is abstracted as the child function of the implicit trie: its encoding is validated only by the correspondence stream",
@@ -18,7 +18,7 @@ CONFIG = {
         ],
         "assumptions": ["values registered for patterns are their positions in the list given to Build",
                         "tables stay far below denco.MaxSize; SizeHint is not modelled (capacity only)"],
-        "partial": ["denco.Mux (method dispatch wrapper in server.go) is not modelled; C01 covers method dispatch through the API router"],
+        "partial": ["the BASE/CHECK double array is abstracted as the trie's child function (validated by the correspondence only)"],
     },
     "C07": {
         "quick_n": 20000, "thorough_n": 400000, "thorough_seeds": 4, "search_s": 60,
